@@ -38,7 +38,7 @@ MAP = [
  ("isnan built-in returns an array", ["C09"]),
  ("power whose base is a power", ["C01", "C03"]),
  ("splits a quoted string", ["C20"]),
- ("guard is the constant False", ["C05", "C06"]),
+ ("guard is the constant False", ["C05"]),
  ("guard that is also a solve variable", ["C08", "C02"]),
 ]
 def main():
